@@ -117,12 +117,33 @@ def definition_text(kind, ver, ctx, canon=True):
     return text
 
 
+DOCEXTRA_FUNC = '''def f({self}dataset_name: str = "mnist", epochs: int = 5, **kwargs):
+    """
+    Train the model.
+
+    :param dataset_name: name of dataset.
+
+    :param epochs: number of epochs.
+
+    :param kwargs: forwarded on
+
+    :param momentum: passed through kwargs
+
+    :param nesterov: passed through kwargs
+    """
+    return None'''
+
+
 def build_file(kind, st, ctx):
     """abstract pre-state -> file text (None = missing).  st: dict(st, b, d, a, canon, nl)."""
     if st["st"] == "missing":
         return None
     if st["st"] == "empty":
         return ""
+    if st.get("docextra") and kind == "function":
+        # a hand-written truth whose docstring documents two names that are not parameters (keys forwarded through **kwargs)
+        src = DOCEXTRA_FUNC.format(self="self, " if ctx == "method" else "")
+        return (("class C(object):\n" + _indent(src)) if ctx == "method" else src) + "\n"
     top_b = [x for x in st["b"] if not x.startswith("C.")]
     top_a = [x for x in st["a"] if not x.startswith("C.")]
     mem_b = [x[2:] for x in st["b"] if x.startswith("C.")]
@@ -262,7 +283,7 @@ def spelled(root, spell):
     return root
 
 
-def run_sync(root, truth, given, ctx, fault=None, via_cli=False, spell="plain", twin=False):
+def run_sync(root, truth, given, ctx, fault=None, via_cli=False, spell="plain", twin=False, hashseed=0):
     """One invocation.  Returns dict(exc, report, printed, status).  twin: a second file of the truth's kind exists."""
     paths = _paths(spelled(root, spell), twin)      # what the command line says
     FILES = KINDS + (("twin",) if twin else ())
@@ -279,7 +300,8 @@ def run_sync(root, truth, given, ctx, fault=None, via_cli=False, spell="plain", 
                 for fn in files_of(k):
                     argv += ["--" + NS_KEY[k].replace("_", "-"), fn]
                 argv += ["--" + NS_KEY[k].replace("_", "-") + "-name", names[k]]
-        p = subprocess.run([PY, "-m", "doctrans"] + argv, cwd=root, env=child_env(), stdout=subprocess.PIPE, stderr=subprocess.PIPE, text=True)
+        # every command-line invocation is its own interpreter: string hashing differs from run to run
+        p = subprocess.run([PY, "-m", "doctrans"] + argv, cwd=root, env=child_env(PYTHONHASHSEED=hashseed), stdout=subprocess.PIPE, stderr=subprocess.PIPE, text=True)
         paths = {k: (os.path.join(root, v) if not os.path.isabs(v) else v) for k, v in paths.items()}
         out = p.stdout
         exc = "none" if p.returncode == 0 and "Traceback" not in p.stderr else ("exit%d" % p.returncode if "Traceback" not in p.stderr else
@@ -418,7 +440,7 @@ def _run_history(h):
         init_obs = {k: observe(paths[k], kind_of[k], ctx) for k in FILES}
         events, concrete = [], []
         cur_truth_state = dict(h["init"][h["truth"]])
-        for step in h["steps"]:
+        for step_no, step in enumerate(h["steps"]):
             before = {k: _digest(paths[k]) for k in FILES}
             if step == "edit":
                 other = "v2" if observe(paths[h["truth"]], h["truth"], ctx)["d"] == "v1" else "v1"
@@ -430,7 +452,7 @@ def _run_history(h):
             fault = None
             if isinstance(step, (list, tuple)) and step[0] == "fault":
                 fault = tuple(step[1:])
-            res = run_sync(root, h["truth"], h["given"], ctx, fault=fault, via_cli=(step == "sync_cli"), spell=h.get("spell", "plain"), twin=twin)
+            res = run_sync(root, h["truth"], h["given"], ctx, fault=fault, via_cli=(step == "sync_cli"), spell=h.get("spell", "plain"), twin=twin, hashseed=(step_no * 7 + 1) % 11)
             after = {k: _digest(paths[k]) for k in FILES}
             ev = {"a": "sync", "exc": res["exc"], "fault": ("none" if not fault else ":".join(map(str, fault))),
                   "post": {k: observe(paths[k], kind_of[k], ctx) for k in FILES},
@@ -521,19 +543,32 @@ def histories(prop, thorough, rnd):
                     for c in combos:
                         init = {truth: rnd.choice(ts), targets[0]: c[0], targets[1]: c[1]}
                         hs.append({"truth": truth, "given": list(given), "ctx": ctx, "init": init, "steps": list(shape)})
+    if prop == "C10":
+        # separate interpreters (different string hashing) and a truth that documents names which are not parameters:
+        # what the first run wrote must be what the next runs would write
+        for ctx in ("top", "method"):
+            for given in (list(KINDS), ["function", "class"]):
+                for pre in ({"st": "missing"}, {"st": "mod", "b": ["s1"], "d": "v1", "a": [], "canon": True, "nl": True}):
+                    init = {"function": {"st": "mod", "b": [], "d": "v1", "a": [], "canon": False, "nl": True, "docextra": True},
+                            "class": dict(pre), "argparse": {"st": "missing"}}
+                    for st in init.values():
+                        st.setdefault("b", []), st.setdefault("a", []), st.setdefault("d", "absent")
+                    hs.append({"truth": "function", "given": given, "ctx": ctx, "init": init, "steps": ["sync_cli", "sync_cli", "sync_cli", "sync_cli"]})
     if not thorough:
         keep = 700 if prop != "C10" else 450
 
         def special(h):     # rare shapes are always kept: module docstring, unterminated last line, hand-written, class missing
-            return any(("s0" in st.get("b", [])) or st.get("nl", True) is not True or st.get("canon", True) is False or st.get("has_class", True) is False
+            return any(("s0" in st.get("b", [])) or st.get("docextra") or st.get("nl", True) is not True or st.get("canon", True) is False or st.get("has_class", True) is False
                        or any(x in ("r1", "r2", "r3", "C.m4") for x in st.get("a", []))
                        for st in h["init"].values())
 
+        always = [h for h in hs if any(st.get("docextra") for st in h["init"].values())]
+        hs = [h for h in hs if h not in always]
         must = [h for h in hs if special(h)]
         rest = [h for h in hs if not special(h)]
         if len(must) > keep // 2:
             must = rnd.sample(must, keep // 2)
-        hs = must + rnd.sample(rest, min(len(rest), keep - len(must)))
+        hs = always + must + rnd.sample(rest, min(len(rest), keep - len(must)))
     for i, h in enumerate(hs):
         h["id"] = "h%d" % i
         # how the files are named on the command line (Sync.tla: spell): plain, through a symbolic link, relative
